@@ -114,7 +114,28 @@ thread_local! {
     static REG: RefCell<Registry> = RefCell::new(Registry::default());
 }
 
+thread_local! {
+    /// While set, new objects are not tracked (token 0) - used for the throw-away clones made
+    /// while a cache's memory is mapped read-only.
+    static QUIET: Cell<bool> = const { Cell::new(false) };
+    /// While > 0, a cloned key's id is the original's id modulo this number: a `Clone` that does
+    /// not preserve equality (distinct keys of the source become equal in the clone).
+    static COLLAPSE: Cell<u32> = const { Cell::new(0) };
+}
+
+pub fn set_quiet(on: bool) {
+    QUIET.with(|q| q.set(on));
+}
+
+pub fn set_collapse(m: u32) {
+    COLLAPSE.with(|c| c.set(m));
+}
+
 fn mint(origin: Option<u64>) -> u64 {
+    if QUIET.with(|q| q.get()) {
+        return 0;
+    }
+
     REG.with(|r| {
         let mut r = r.borrow_mut();
         r.next += 1;
@@ -277,7 +298,9 @@ impl Borrow<KeyId> for TKey {
 impl Clone for TKey {
     fn clone(&self) -> TKey {
         tick(Kind::Clone);
-        TKey { id: self.id, heap: self.heap, tok: mint(Some(self.tok)) }
+        let m = COLLAPSE.with(|c| c.get());
+        let id = if m > 0 { KeyId(self.id.0 % m) } else { self.id };
+        TKey { id, heap: self.heap, tok: mint(Some(self.tok)) }
     }
 }
 
